@@ -28,7 +28,17 @@ func (e StdEng) argmaxDenseTensor(t DenseTensor, axis int) (retVal *Dense, err e
 	if axis == AllAxes {
 		var index int
 		if mt, ok := t.(MaskedTensor); ok && mt.IsMasked() {
-			if index = e.E.ArgmaxFlatMasked(typ, dataA, mt.Mask()); index == -1 {
+			if flatArgNeedsIterator(t) {
+				// the raw data and the raw mask are not the row-major listing of the elements: visit them
+				// with the iterator, as one run of all the elements and their mask bits
+				var indices []int
+				if indices, err = e.E.ArgmaxIterMasked(typ, dataA, mt.Mask(), IteratorFromDense(t), t.Shape().TotalSize()); err != nil {
+					return nil, err
+				}
+				if len(indices) > 0 {
+					index = indices[0]
+				}
+			} else if index = e.E.ArgmaxFlatMasked(typ, dataA, mt.Mask()); index == -1 {
 				return nil, errors.Errorf("t is not supported - %T of %v", t, t.Dtype())
 			}
 		} else if t.RequiresIterator() || t.DataOrder().IsColMajor() {
@@ -125,7 +135,17 @@ func (e StdEng) argminDenseTensor(t DenseTensor, axis int) (retVal *Dense, err e
 	if axis == AllAxes {
 		var index int
 		if mt, ok := t.(MaskedTensor); ok && mt.IsMasked() {
-			if index = e.E.ArgminFlatMasked(typ, dataA, mt.Mask()); index == -1 {
+			if flatArgNeedsIterator(t) {
+				// the raw data and the raw mask are not the row-major listing of the elements: visit them
+				// with the iterator, as one run of all the elements and their mask bits
+				var indices []int
+				if indices, err = e.E.ArgminIterMasked(typ, dataA, mt.Mask(), IteratorFromDense(t), t.Shape().TotalSize()); err != nil {
+					return nil, err
+				}
+				if len(indices) > 0 {
+					index = indices[0]
+				}
+			} else if index = e.E.ArgminFlatMasked(typ, dataA, mt.Mask()); index == -1 {
 				return nil, errors.Errorf("t is not supported - %T of %v", t, t.Dtype())
 			}
 		} else if t.RequiresIterator() || t.DataOrder().IsColMajor() {
@@ -194,4 +214,17 @@ func (e StdEng) argminDenseTensor(t DenseTensor, axis int) (retVal *Dense, err e
 	}
 
 	return New(WithShape(newShape...), WithBacking(indices)), nil
+}
+
+// flatArgNeedsIterator reports whether the raw data of a masked tensor, read from left to right, is not the
+// row-major listing of its elements. It is RequiresIterator without the clause for masks (a masked tensor
+// always requires an iterator), plus the column-major case.
+func flatArgNeedsIterator(t DenseTensor) bool {
+	if t.DataOrder().IsColMajor() {
+		return true
+	}
+	if t.len() == 1 {
+		return false
+	}
+	return !t.DataOrder().IsContiguous() || !t.oldAP().IsZero()
 }
